@@ -9,6 +9,7 @@ pub mod c08;
 pub mod c09;
 pub mod c10;
 pub mod c11;
+pub mod c12;
 pub mod c13;
 pub mod c14;
 pub mod c15;
@@ -67,6 +68,7 @@ pub fn run(id: &str, ctx: &mut Ctx) -> bool {
         "C09" => c09::run(ctx),
         "C10" => c10::run(ctx),
         "C11" => c11::run(ctx),
+        "C12" => c12::run(ctx),
         "C13" => c13::run(ctx),
         "C14" => c14::run(ctx),
         "C15" => c15::run(ctx),
@@ -116,6 +118,7 @@ pub fn replay_value(id: &str, ctx: &mut Ctx, r: &serde_json::Value) -> bool {
         "C08" => c08::replay(ctx, r),
         "C10" => c10::replay(ctx, r),
         "C11" => c11::replay(ctx, r),
+        "C12" => c12::replay(ctx, r),
         "C13" => c13::replay(ctx, r),
         "C14" => c14::replay(ctx, r),
         "C15" => c15::replay(ctx, r),
